@@ -10,6 +10,9 @@ EQ_RE = re.compile(r"^IF \((.+?) = (.+)\)$")
 EXIT_EMPTY_RE = re.compile(r"ISEMPTY\((\S+?)\)")
 LIMIT_RE = re.compile(r"^EXIT \(SIZE\((\S+)\) >= (?:NUMBER|UNSIGNED)\((\d+)\)\)$")
 ELEM_RE = re.compile(r"^t(\d+)\.(\d+)$")
+NONEMPTY_RE = re.compile(r"^IF \(NOT ISEMPTY\((\S+)\)\)$")
+EMPTY_RE = re.compile(r"^IF ISEMPTY\((\S+)\)$")
+BREAK_RE = re.compile(r"^IF \(NOT ISEMPTY\((\S+)\)\) BREAK$")
 
 
 def split_args(s):
@@ -50,19 +53,42 @@ class Interner:
 
 
 def parse_query(lines, it):
-    """lines: stripped statement lines of one QUERY. returns dict or raises ValueError"""
+    """lines: stripped statement lines of one QUERY. returns dict or raises ValueError.
+    Emptiness filters: `IF (NOT ISEMPTY(X))` directly under `FOR t IN X` (only BREAK lines between) is the test that
+    addAtomScan puts under every scan; the scan implies it, it is counted in `others`. Every other `IF (NOT ISEMPTY(X))` is
+    the existence test of an atom without a scan (arity 0 or only unnamed arguments) -> `tests`. `IF ISEMPTY(X)` -> `empties`
+    (negated delta of an atom of arity 0, guard of a head of arity 0, negated atom of arity 0, test before INSERT () INTO @new),
+    `IF (NOT ISEMPTY(X)) BREAK` -> `breaks`. The validator decides which of them are admissible where."""
     scans, eqs, negs, others, insert = [], [], [], 0, None
+    tests, empties, breaks = [], [], []
+    under_scan = None          # (rel, kind) of the FOR whose implied emptiness test has not been seen yet
     for l in lines:
+        m = BREAK_RE.match(l)
+        if m:
+            breaks.append(it.relid(m.group(1)))
+            continue
         m = FOR_RE.match(l)
         if m:
             r, k = it.relid(m.group(2))
             scans.append((int(m.group(1)), r, k))
+            under_scan = (r, k)
+            continue
+        implied, under_scan = under_scan, None
+        m = NONEMPTY_RE.match(l)
+        if m:
+            rk = it.relid(m.group(1))
+            if rk == implied:
+                others += 1
+            else:
+                tests.append(rk)
+            continue
+        m = EMPTY_RE.match(l)
+        if m:
+            empties.append(it.relid(m.group(1)))
             continue
         m = INSERT_RE.match(l)
         if m:
             r, k = it.relid(m.group(2))
-            if not m.group(1).strip():
-                raise ValueError("nullary relation in a recursive stratum")
             insert = (r, k, [it.elem(a) for a in split_args(m.group(1))])
             continue
         m = NEG_RE.match(l)
@@ -70,6 +96,8 @@ def parse_query(lines, it):
             if "UNDEF" in split_args(m.group(1)):
                 # an atom with `_` yields a partial-pattern existence check, not "tuple not in delta" (outside the validator's scheme)
                 raise ValueError("anonymous variable in a negated existence check")
+            if not m.group(1).strip():
+                raise ValueError("existence check without arguments")
             r, k = it.relid(m.group(2))
             negs.append((r, k, [it.elem(a) for a in split_args(m.group(1))]))
             continue
@@ -77,20 +105,23 @@ def parse_query(lines, it):
         if m and " AND " not in l and "!=" not in l and "<=" not in l and ">=" not in l:
             eqs.append((it.elem(m.group(1)), it.elem(m.group(2))))
             continue
-        if l.startswith("IF "):
+        if l.startswith("IF ") and not l.endswith(" BREAK") and "ISEMPTY(" not in l:
             others += 1
             continue
         raise ValueError("unsupported operation in a recursive query: " + l[:80])
     if insert is None:
         raise ValueError("query without INSERT")
-    return {"scans": scans, "eqs": eqs, "negs": negs, "others": others, "insert": insert}
+    return {"scans": scans, "eqs": eqs, "negs": negs, "others": others, "insert": insert,
+            "tests": tests, "empties": empties, "breaks": breaks}
 
 
 def version_sx(q):
-    return "(version (scans %s) (eqs %s) (negs %s) (others %d) (insert %d %d (%s)))" % (
+    extra = "".join(" (%s %s)" % (name, " ".join("(%d %d)" % rk for rk in q[name]))
+                    for name in ("tests", "empties", "breaks") if q[name])
+    return "(version (scans %s) (eqs %s) (negs %s) (others %d) (insert %d %d (%s))%s)" % (
         " ".join("(%d %d %d)" % s for s in q["scans"]), " ".join("(%s %s)" % e for e in q["eqs"]),
         " ".join("(%d %d (%s))" % (r, k, " ".join(a)) for r, k, a in q["negs"]), q["others"],
-        q["insert"][0], q["insert"][1], " ".join(q["insert"][2]))
+        q["insert"][0], q["insert"][1], " ".join(q["insert"][2]), extra)
 
 
 def strata(ram_text):
@@ -112,7 +143,8 @@ def strata(ram_text):
         k = i - 1
         while k >= 0:
             s = lines[k].strip()
-            if s.startswith("LET VARIABLE") or s in ("END QUERY", "QUERY") or s.startswith("FOR t0 IN") or s.startswith("INSERT ("):
+            if s.startswith("LET VARIABLE") or s in ("END QUERY", "QUERY") or s.startswith("FOR t0 IN") or s.startswith("INSERT (") \
+                    or NONEMPTY_RE.match(s):
                 pre.append(s)
                 k -= 1
                 continue
@@ -128,12 +160,17 @@ def strata(ram_text):
 
 
 def one_stratum(pre, body, it):
-    preamble = []
+    # copy statements: FOR t0 IN src / INSERT (t0.0,..) INTO dst, and for arity 0: IF (NOT ISEMPTY(src)) / INSERT () INTO dst
+    preamble, pre_nullary, upd_nullary = [], set(), set()
     for a, b in zip(pre, pre[1:]):
         m1 = FOR_RE.match(a)
+        m0 = NONEMPTY_RE.match(a)
         m2 = INSERT_RE.match(b)
-        if m1 and m2 and m2.group(2) == "@delta_" + m1.group(2):
+        if m1 and m2 and m2.group(1).strip() and m2.group(2) == "@delta_" + m1.group(2):
             preamble.append(it.relid(m1.group(2))[0])
+        elif m0 and m2 and not m2.group(1).strip() and m2.group(2) == "@delta_" + m0.group(1):
+            preamble.append(it.relid(m0.group(1))[0])
+            pre_nullary.add(it.relid(m0.group(1))[0])
     clauses, exits, limits, updates = [], [], [], {}
     order = []
     cur_debug, cur_clause = None, None
@@ -158,8 +195,15 @@ def one_stratum(pre, body, it):
             q = parse_query(qlines, it)
             idx = e + 1
             r, k, args = q["insert"]
-            if k == 0 and len(q["scans"]) == 1 and q["scans"][0][2] == 2 and q["scans"][0][1] == r and not q["negs"] and not q["eqs"]:
+            plain = not q["negs"] and not q["eqs"] and not q["empties"] and not q["breaks"] and q["others"] == 0
+            if k == 0 and plain and args and len(q["scans"]) == 1 and q["scans"][0][2] == 2 and q["scans"][0][1] == r and not q["tests"]:
                 updates.setdefault(r, [0, 0, 0])[0] = 1          # merge @new_R into R
+                if r not in order:
+                    order.append(r)
+                continue
+            if k == 0 and plain and not args and not q["scans"] and q["tests"] == [(r, 2)]:
+                updates.setdefault(r, [0, 0, 0])[0] = 1          # arity 0: IF (NOT ISEMPTY(@new_R)) INSERT () INTO R
+                upd_nullary.add(r)
                 if r not in order:
                     order.append(r)
                 continue
@@ -205,11 +249,19 @@ def one_stratum(pre, body, it):
             continue
         raise ValueError("unsupported statement in a recursive stratum: " + l[:80])
     scc = sorted(updates)
-    sx = "(stratum (scc %s) (preamble %s) (exit %s) (limits %s) (update %s) %s)" % (
+    # the validator's semantics gives a relation of `nullary` the arity-0 form of BOTH copy statements
+    if pre_nullary != upd_nullary:
+        raise ValueError("copy statements of a relation disagree on arity 0: %s" % sorted(pre_nullary ^ upd_nullary))
+    nullary = sorted(upd_nullary)
+    sx = "(stratum (scc %s) (preamble %s) (exit %s) (limits %s) (update %s) %s%s)" % (
         " ".join(map(str, scc)), " ".join(map(str, preamble)), " ".join(map(str, exits)),
         " ".join("(%d %d)" % l for l in limits), " ".join("(%d %d %d %d)" % tuple([r] + updates[r]) for r in scc),
+        "(nullary %s) " % " ".join(map(str, nullary)) if nullary else "",
         " ".join("(clause %d %s)" % (ci, " ".join(version_sx(q) for q in c)) for ci, c in enumerate(clauses) if c))
+    scc_atoms = lambda q: sum(1 for s in q["scans"] if s[1] in updates and s[2] in (0, 1)) + sum(1 for t in q["tests"] if t[0] in updates and t[1] in (0, 1))
     info = {"scc_size": len(scc), "clauses": len([c for c in clauses if c]), "versions": sum(len(c) for c in clauses),
-            "max_scc_atoms": max([sum(1 for s in q["scans"] if s[1] in updates and s[2] in (0, 1)) for c in clauses for q in c] or [0]),
+            "max_scc_atoms": max([scc_atoms(q) for c in clauses for q in c] or [0]),
+            "scanless_atoms": sum(1 for c in clauses for q in c[:1] for t in q["tests"] if t[0] in updates),
+            "nullary_heads": sum(1 for c in clauses if c and not c[0]["insert"][2]),
             "relations": {v: k for k, v in it.rel.items()}}
     return sx, info
